@@ -431,3 +431,63 @@ class DebounceModel:
                 val = 0
             cnt = max(cnt - 1, 0)
         return [((cnt, val), (val,))]
+
+
+# ---------------------------------------------------------------------------------------------
+# step_cond / held inputs (context flavours)
+# ---------------------------------------------------------------------------------------------
+class StepGated:
+    """Context with `step_cond=lambda: self.step` (std.sequential docstring):
+
+        if clk:
+            if reset:   reset_context()
+            elif step_cond():   # run decorated function          (async reset: `if reset` / `if clk` swapped)
+
+    so in a clock in which the step condition is false and no reset is active nothing of the context advances: the
+    inner reference keeps its state, every level output (registered signal) keeps its value.  Outputs that are
+    pushed pulses (`^=`) are not constrained in such clocks (whether a push lasts one clock or one enabled step
+    is not documented).  A reset (context reset input, or the `dis` input driving the reset signal of a
+    ToggleSignal/ClockDivider) has priority over the step condition.  Outputs are unconstrained until the
+    context has run (or been reset) once."""
+
+    def __init__(self, inner, pulse_outputs=()):
+        self.inner = inner
+        self.input_names = list(inner.input_names) + ["step"]
+        self.menu = [tuple(m) + (s,) for m in inner.menu for s in (1, 0)]
+        self.outputs = list(inner.outputs)
+        self._pulse = tuple(o in pulse_outputs for o in self.outputs)
+        names = list(inner.input_names)
+        self._rst = names.index("rst") if "rst" in names else None
+        self._rst_on = getattr(inner, "rst_on", 1)
+        self._dis = names.index("dis") if "dis" in names else None
+
+    def init(self):
+        return [(s, (None,) * len(self.outputs)) for s in self.inner.init()]
+
+    def step(self, st, inp):
+        s, last = st
+        iinp = tuple(inp[:-1])
+        forced = (self._rst is not None and iinp[self._rst] == self._rst_on) or \
+                 (self._dis is not None and iinp[self._dis] == 1)
+        if inp[-1] or forced:
+            return [((s2, exp), exp) for s2, exp in self.inner.step(s, iinp)]
+        exp = tuple(None if p else v for p, v in zip(self._pulse, last))
+        return [(st, exp)]
+
+
+class HeldInput:
+    """adds an input port that the environment holds at one value (e.g. a reset that is never asserted)"""
+
+    def __init__(self, inner, name, value):
+        self.inner = inner
+        self.input_names = list(inner.input_names) + [name]
+        self.menu = [tuple(m) + (value,) for m in inner.menu]
+        self.outputs = inner.outputs
+        if hasattr(inner, "rst_on"):
+            self.rst_on = inner.rst_on
+
+    def init(self):
+        return self.inner.init()
+
+    def step(self, st, inp):
+        return self.inner.step(st, tuple(inp[:-1]))
